@@ -392,6 +392,9 @@ func init() {
 			return "bad-payload"
 		},
 		Tool: func(args []string) int {
+			if len(args) == 2 && args[0] == "extract" {
+				return c18Extract(args[1])
+			}
 			// probe <src as Go-quoted text without the quotes>: tokens, parse error, runtime error
 			for _, a := range args {
 				src, err := strconvUnquote(a)
